@@ -136,4 +136,12 @@ def writeSol {D : Type} (c : Codec D) (s : Sol D) : Bytes :=
 def goodNumB (t : Bytes) : Bool :=
   decide (t.length ≤ 500) && t.all (fun c => c != 10 && c != 0) && (decstring (t ++ [10]) == some t)
 
+/-- executable form of the codec hypothesis `GoodSufTok` (C05/LemmasSec.lean) for values printed in suffix lines -/
+def goodSufTokB (t : Bytes) : Bool :=
+  decide (t.length ≤ 400) && t.all (fun c => c != 10 && c != 0) && (strtodLen (32 :: t ++ [10]) == t.length + 1)
+
+/-- the printed texts of all real-valued entries of the suffixes that are written -/
+def realEntryToks {D : Type} (c : Codec D) (sufs : List (Suf D)) : List Bytes :=
+  sufs.flatMap (fun s => if isOutput s.kind && isFloat s.kind then (s.entries c).map (·.2) else [])
+
 end MpVerif.C05
